@@ -7,6 +7,7 @@
      AMT   = (TEXT FLAGS SYM? QTY)          META = ((OVERWRITE KEY VALUE?) ...) in source order
      X?    = () | (HEX)        strings are hex, "-" is the empty string
    (enc ID HEX)   -> "ID enc EMACS CSVQ CSVRFC JOIN XML"          the escaping functions alone
+   (xmlwalk ID)   -> "ID xmlwalk HEX"   76 = the xml report writes the VISITED postings of a transaction, 64 = the DISPLAYED ones, 3f = unrecognised source
    (read rfc|bs|xml|lisp|xmltags ID HEX) -> "ID read ..." what the reader specification recovers, or "ID read none" *)
 let hx a = if a = "-" then [] else str_of_hex a
 let out l = match hex_of_str l with "" -> "-" | h -> h
@@ -77,6 +78,7 @@ let handle line =
     let s = hx h in
     [ String.concat " " [id; "enc"; out (emacs_escape s); out (csv_quoted s); out (csv_quoted_rfc s);
                          out (join_lines s); out (xml_encode s)] ]
+  | L [A "xmlwalk"; A id] -> [ id ^ " xmlwalk " ^ out xml_walk_name ]
   | L [A "read"; A what; A id; A h] ->
     let s = hx h in
     let r = (match what with
